@@ -23,6 +23,10 @@ CHECKS = {
    technique="Coq proof (case analysis of the receive path model against the slot-state algebra) + differential histories with structure-aware mutated frames and full before/after slot snapshots",
    text="Theorems: non-EtherCAT / own-source frames are ignored with the state untouched (c05_ignore); for ANY bytes, unless the frame is accepted the whole state is unchanged (c05_reject_pure); an accepted frame changes exactly the first slot carrying its first datagram index, which was awaiting a response, copying the datagram area in and leaving key, length, other slots and counters alone (c05_accept_local); a frame matching no awaiting request is never accepted (c05_stranger). Tied by 600/6000 histories delivering genuine, duplicate, late, truncated, oversized, length-lying, index-perturbed and random frames in every reachable slot-state combination for 1..4 slots, comparing results and full slot contents with the model; the no-panic clause is checked by catch_unwind on every delivery.",
    note="'Never panics' is shown by the model being total with every Rust slice/index mapped to a guarded branch plus catch_unwind on all generated inputs - the model itself cannot exhibit a panic that the guards miss. Buffer-length well-formedness (wf_pstate) is an invariant proved preserved by every operation."),
+ "C06": dict(
+   technique="Coq proof (induction on the retry budget over the slot model; case analysis of poll) + model witnesses (vm_compute) for the refuted safety clause + differential histories under a virtual clock with operations executed inside the TX / RX / poll / drop windows via cfg yield points",
+   text="Proved: c06_count (R retries, no response => exactly R+1 byte-identical transmissions, PDU timeout, slot free), c06_forever (any budget outlasting the observation: k deadlines => k identical transmissions, still pending), c06_done_wins (a received response beats the deadline), c06_never_success / c06_done_needs_response (no success without an accepted response). REFUTED with machine-checked witnesses: the safety clause (c06_safe_refuted_tx_window, c06_safe_refuted_rx_window) - reproduced on the real code and carried as known findings; any breach outside those two window classes is still reported. Tied by 900/9000 cases: count scenarios (retries 0..3, response lost always or after transmission k, late poll) with the oracle evaluated on the implementation, and random histories with drops/expiries/allocations executed inside every window, all compared step by step with the model.",
+   note="PARTIAL: 'safe outside the windows' is validated by the correspondence runs (every oracle failure seen lies in a window class) and by the C03 ownership theorem for histories with atomic TX, not yet by a theorem over the split-TX alphabet. The count clause assumes TX services every sendable frame before the next deadline (as the property states). Virtual time only; the embassy Timer fires from its second poll on (modelled in the harness)."),
 }
 ORDER = [f"C{i:02d}" for i in range(1, 21)]
 
